@@ -3,7 +3,7 @@
 //@ props: C18 C08
 //@ expect: postcondition>=3 canary=5
 #include "_unit.h"
-/* value: exactly len arbitrary bytes (0..2^20), not terminated */
+/* value: exactly len arbitrary bytes (0..2^16), not terminated */
 void harness(void)
 {
     xv_ghost_havoc(); xc_ghost_havoc();
